@@ -40,7 +40,7 @@ func schedCase(rng *rand.Rand, w *Writer, suite string, kind string, canonical i
 		d.joined = true
 		d.fup0 = []uint16{1, 100, 40000}[rng.Intn(3)]
 		d.fdn0 = []uint16{1, 7, 30000}[rng.Intn(3)]
-		d.relaxed = rng.Intn(3) == 0
+		d.relaxed = rng.Intn(3) == 0 || canonical == 3
 		d.fcnt = d.fup0
 	} else {
 		d.nwk, d.app = randBytes(rng, 16), randBytes(rng, 16)
@@ -70,6 +70,18 @@ func schedCase(rng *rand.Rand, w *Writer, suite string, kind string, canonical i
 		if rng.Intn(2) == 0 {
 			h.submit(d, uint8(1+rng.Intn(200)), rng.Intn(2) == 0, randBytes(rng, 1+rng.Intn(20)))
 		}
+	} else if suite == "schedC06" {
+		// two queued messages, the second often no longer than the first: each frame must carry its own message's bytes
+		// whatever the other handler does to the output buffer meanwhile
+		n1 := 1 + rng.Intn(20)
+		n2 := 1 + rng.Intn(20)
+		if rng.Intn(3) != 0 && n2 > n1 {
+			n1, n2 = n2, n1
+		}
+		h.submit(d, uint8(1+rng.Intn(200)), rng.Intn(2) == 0, randBytes(rng, n1))
+		h.submit(d, uint8(1+rng.Intn(200)), rng.Intn(2) == 0, randBytes(rng, n2))
+	} else if canonical == 3 && kind == "rejoin" {
+		// nothing queued: the uplink's handler leaves the buffer entry alone and can collect the join-accept
 	} else if canonical == 3 && kind != "join-copies" {
 		// exactly one queued message: the first handler's answer carries it, the second handler has nothing to send
 		h.submit(d, uint8(1+rng.Intn(200)), false, randBytes(rng, 1+rng.Intn(20)))
@@ -81,12 +93,14 @@ func schedCase(rng *rand.Rand, w *Writer, suite string, kind string, canonical i
 	}
 	pre := append([]string{}, h.events...)
 	var f1, f2 []byte
+	confirmedUp := false
 	switch kind {
 	case "copies":
 		f1 = h.validUplink(d, canonical != 3 && rng.Intn(2) == 0, rng.Intn(3) == 0, d.fcnt, 1+rng.Intn(200), randBytes(rng, rng.Intn(20)), nil)
 		f2 = f1
 	case "consecutive":
 		confirmed := rng.Intn(2) == 0
+		confirmedUp = confirmed
 		f1 = h.validUplink(d, confirmed, false, d.fcnt, 1+rng.Intn(200), randBytes(rng, rng.Intn(20)), nil)
 		f2 = h.validUplink(d, confirmed, rng.Intn(3) == 0, d.fcnt+1, 1+rng.Intn(200), randBytes(rng, rng.Intn(20)), nil)
 	case "regressed":
@@ -132,8 +146,17 @@ func schedCase(rng *rand.Rand, w *Writer, suite string, kind string, canonical i
 				sched3 = []int{2, 1, 0, 2, 1, 0, 2, 2, 2, 2, 2, 2, 2, 2, 2, 2, 2, 2, 1, 1, 1, 1, 1, 1, 1, 1, 1, 1, 1, 1}
 			}
 		} else {
-			for i := 0; i < 45; i++ {
-				sched3 = append(sched3, rng.Intn(3))
+			if rng.Intn(2) == 0 {
+				for i := 0; i < 45; i++ {
+					sched3 = append(sched3, rng.Intn(3))
+				}
+			} else {
+				for len(sched3) < 50 {
+					who := rng.Intn(3)
+					for i := 1 + rng.Intn(12); i > 0; i-- {
+						sched3 = append(sched3, who)
+					}
+				}
 			}
 		}
 		trace, status := world.runSchedN([]server.GatewayPacket{p1, p2, p3}, sched3)
@@ -175,6 +198,31 @@ func schedCase(rng *rand.Rand, w *Writer, suite string, kind string, canonical i
 		if kind == "rejoin" {
 			// the uplink's handler reads the device, the join runs to its end, the uplink's handler goes on
 			sched = []bool{true}
+			if canonical == 3 {
+				// ... the join runs up to SetJoinAcceptPayload only; the uplink's handler (relaxed counter, nothing queued)
+				// goes on to its buffer read and collects the join-accept; the join finishes last
+				sched = []bool{true, false, false, false, false, false, false}
+				for i := 0; i < 30; i++ {
+					sched = append(sched, true)
+				}
+			}
+		} else if suite == "schedC06" && canonical == 3 {
+			// the first handler up to and including its buffer read, the second up to and including its SetPayload, the
+			// first to its end (its encoder works on the frame assembled before), then the second
+			sched = nil
+			k := 9 // GetDevice AdvanceFCntUp CreateUpstreamMessage GetApplicationByEUI ResetActiveAcks|UpdateMessageAckTime GetNextUnsentMessage SetPayload SetMessageSentTime GetPHYPayloadForDevice
+			if confirmedUp {
+				k++ // SetMessageAckFlag
+			}
+			for i := 0; i < k; i++ {
+				sched = append(sched, false)
+			}
+			for i := 0; i < k-2; i++ {
+				sched = append(sched, true)
+			}
+			for i := 0; i < 12; i++ {
+				sched = append(sched, false)
+			}
 		}
 	case 2: // second frame first, alternating through the counter writes; the second frame then runs on and the first finishes last
 		sched = []bool{true, false, true, false}
@@ -182,8 +230,19 @@ func schedCase(rng *rand.Rand, w *Writer, suite string, kind string, canonical i
 			sched = append(sched, true)
 		}
 	default:
-		for i := 0; i < 30; i++ {
-			sched = append(sched, rng.Intn(2) == 0)
+		if rng.Intn(2) == 0 {
+			for i := 0; i < 30; i++ {
+				sched = append(sched, rng.Intn(2) == 0)
+			}
+		} else {
+			// runs of several operations of one handler (whole phases of a handler overlap with the other's)
+			who := rng.Intn(2) == 0
+			for len(sched) < 36 {
+				for i := 1 + rng.Intn(12); i > 0; i-- {
+					sched = append(sched, who)
+				}
+				who = !who
+			}
 		}
 	}
 	trace, status := world.runSched(p1, p2, sched)
@@ -229,6 +288,9 @@ func schedSuite(suite string, kinds []string, quickN, thoroughN int) suiteFunc {
 		if suite == "schedC09" {
 			for i := 0; i < 3; i++ {
 				windowCase(rng, w, suite)
+			}
+			for i := 0; i < 2; i++ {
+				window2Case(rng, w, suite)
 			}
 		}
 		for i := 0; i < n; i++ {
@@ -330,4 +392,74 @@ func windowCase(rng *rand.Rand, w *Writer, suite string) {
 	w.Case(suite, []string{fmt.Sprintf("cfg=%d:0", opts.netID), fmt.Sprintf("apps=%x", uint64(a.ToInt64())), "pop=" + pop,
 		"pre=" + strings.Join(pre, "|"), "f1=" + e1, "f2=" + e2, "f3=" + e3, "kind=window", "sched="}, o1+"|"+o2)
 	w.Count("sched.window")
+}
+
+// Two devices that share a DevAddr (different keys; the decrypter tells them apart by the MIC) send a confirmed uplink
+// each inside one receive window (real time, no stepping): the scheduler's slot is per device, so each is answered -
+// once, with the ACK flag, under its own keys.
+func window2Case(rng *rand.Rand, w *Writer, suite string) {
+	opts := worldOpts{netID: uint(rng.Intn(1 << 24)), rxDelay: 400 * time.Millisecond}
+	world := newWorld(opts)
+	defer world.close()
+	h := &histRunner{w: world, rng: rng, tags: w.Stats, lastValid: map[int][]byte{}}
+	h.gws = []uint64{genEUI(rng), genEUI(rng)}
+	a := eui64(genEUI(rng))
+	h.apps = []protocol.EUI{a}
+	world.store.CreateApplication(model.Application{AppEUI: a})
+	world.watchApp(a)
+	addr := rng.Uint32()
+	var pops []string
+	for i := 0; i < 2; i++ {
+		d := &simDev{eui: eui64(genEUI(rng)), appeui: a, appkey: genKey(rng), relaxed: rng.Intn(2) == 0}
+		d.nwk, d.app = randBytes(rng, 16), randBytes(rng, 16)
+		d.addr = addr
+		d.joined = true
+		d.fup0 = []uint16{0, 1, 100}[rng.Intn(3)]
+		d.fdn0 = []uint16{0, 7}[rng.Intn(2)]
+		d.fcnt = d.fup0
+		world.store.CreateDevice(mkDevice(d.eui, d.appeui, d.addr, d.appkey, d.nwk, d.app, d.fup0, d.fdn0, d.relaxed, model.PersonalizedDevice), d.appeui)
+		d.registered = true
+		h.devs = append(h.devs, d)
+		pops = append(pops, fmt.Sprintf("%x:%x:%s:%s:%s:%x:%d:%d:%d:%d", uint64(d.eui.ToInt64()), d.addr, hx(d.appkey), hx(d.nwk), hx(d.app),
+			uint64(d.appeui.ToInt64()), d.fup0, d.fdn0, b01(d.relaxed), int(model.PersonalizedDevice)))
+	}
+	if rng.Intn(2) == 0 {
+		h.submit(h.devs[rng.Intn(2)], uint8(1+rng.Intn(200)), false, randBytes(rng, 1+rng.Intn(20)))
+	}
+	pre := append([]string{}, h.events...)
+	f1 := h.validUplink(h.devs[0], true, false, h.devs[0].fcnt, 1+rng.Intn(200), randBytes(rng, rng.Intn(20)), nil)
+	f2 := h.validUplink(h.devs[1], true, false, h.devs[1].fcnt, 1+rng.Intn(200), randBytes(rng, rng.Intn(20)), nil)
+	mk := func(raw []byte, gw uint64) (server.GatewayPacket, string) {
+		datr := datrs[rng.Intn(len(datrs))]
+		rssi := int32(-rng.Intn(130))
+		snr8 := rng.Intn(281) - 160
+		ch := uint8(rng.Intn(8))
+		clock := rng.Uint32()
+		now := time.Now()
+		ts := now.UnixNano() - 1600000000000000000
+		return server.GatewayPacket{
+			RawMessage: append([]byte{}, raw...),
+			Radio:      server.RadioContext{Channel: ch, RFChain: 0, Frequency: 868.1, DataRate: datr, Band: eu868, RSSI: rssi, SNR: float32(snr8) / 8},
+			Gateway:    server.GatewayContext{GatewayEUI: eui64(gw), GatewayHost: "127.0.0.1", GatewayPort: 1700, GatewayClock: clock, ProtocolVersion: 2},
+			ReceivedAt: now,
+		}, fmt.Sprintf("R,%s,%x,%d,%s,%d/%d,%d,%d,,0", hx(raw), gw, ts, datr, rssi, snr8, ch, clock)
+	}
+	p1, e1 := mk(f1, h.gws[0])
+	world.inject(p1)
+	time.Sleep(30 * time.Millisecond) // well inside the first uplink's window
+	p2, e2 := mk(f2, h.gws[1])
+	world.inject(p2)
+	if !world.quiesce() {
+		w.Case(suite, []string{"kind=window2", "pop=" + strings.Join(pops, ";")}, "HUNG")
+		return
+	}
+	downs, _, _ := world.collect()
+	var dl []string
+	for _, x := range downs {
+		dl = append(dl, fmt.Sprintf("%s:%d:%x:%d", hx(x.RawMessage), x.Radio.RX1Delay, uint64(x.Gateway.GatewayEUI.ToInt64()), x.Gateway.GatewayClock))
+	}
+	sort.Strings(dl)
+	w.Case(suite, []string{fmt.Sprintf("cfg=%d:0", opts.netID), fmt.Sprintf("apps=%x", uint64(a.ToInt64())), "pop=" + strings.Join(pops, ";"),
+		"pre=" + strings.Join(pre, "|"), "f1=" + e1, "f2=" + e2, "kind=window2", "sched="}, "D["+strings.Join(dl, ";")+"] P[] "+h.dumpAll())
+	w.Count("sched.window2")
 }
